@@ -15,6 +15,7 @@ type enc struct {
 	rangeErr string
 	exact    bool
 	finite   bool
+	ns       []nsReport
 }
 
 const qScale = 64 // coordinates are logged in units of 1/64
@@ -326,6 +327,40 @@ func (e *enc) ret(c *Case, res *outcome, rec *recorder, src graph.EdgeSlice, siz
 		e.i(len(sizes))
 		e.s("}")
 	}
+	if c.Cert == 1 {
+		ok := true
+		for _, ed := range res.layout.Edges {
+			if index[ed.FromID] == 0 || index[ed.ToID] == 0 {
+				ok = false
+			}
+		}
+		if ok {
+			if y, f, good := certificate(c.N, drawnArcs(res.layout.Edges, index)); good {
+				e.s(`,"cert":{"y":`)
+				e.ints(y)
+				e.s(`,"f":`)
+				e.ints(f)
+				e.s("}")
+			}
+		}
+	}
+	// network-simplex layering: total pivots, and whether any component ended on the iteration budget
+	piv, capped, stuck := 0, 0, 0
+	for _, r := range e.ns {
+		piv += r.pivots
+		if r.capped {
+			capped = 1
+		}
+		if r.stuck {
+			stuck = 1
+		}
+	}
+	e.s(`,"pivots":`)
+	e.i(piv)
+	e.s(`,"capped":`)
+	e.i(capped)
+	e.s(`,"stuck":`)
+	e.i(stuck)
 	e.s(`,"us":`)
 	us := res.wallUs
 	if us > 1<<29 {
